@@ -178,6 +178,71 @@ func (x *boolExec) reachableUnder(target *ssa.BasicBlock) []bool {
 	return out
 }
 
+// pathAvoiding: under assignment asg, is there a path from block start to
+// block target that never enters a block of avoid?  (must-pass-through under
+// a boolean abstraction: "no" means every path passes avoid.)
+func (x *boolExec) pathAvoiding(start, target *ssa.BasicBlock, avoid map[*ssa.BasicBlock]bool, asg uint) bool {
+	seen := map[beState]bool{}
+	type item struct {
+		b, pred *ssa.BasicBlock
+		env     map[*ssa.Phi]tri
+	}
+	work := []item{{b: start, env: map[*ssa.Phi]tri{}}}
+	for len(work) > 0 {
+		it := work[len(work)-1]
+		work = work[:len(work)-1]
+		env := it.env
+		if it.pred != nil {
+			newEnv := map[*ssa.Phi]tri{}
+			for k, v := range env {
+				newEnv[k] = v
+			}
+			for _, ins := range it.b.Instrs {
+				phi, ok := ins.(*ssa.Phi)
+				if !ok {
+					break
+				}
+				if !isBoolType(phi.Type()) {
+					continue
+				}
+				for i, p := range it.b.Preds {
+					if p == it.pred {
+						newEnv[phi] = x.eval(phi.Edges[i], asg, env)
+					}
+				}
+			}
+			env = newEnv
+		}
+		st := beState{it.b, envKey(env)}
+		if seen[st] {
+			continue
+		}
+		seen[st] = true
+		if it.b == target {
+			return true
+		}
+		if avoid[it.b] && it.b != start {
+			continue
+		}
+		last := it.b.Instrs[len(it.b.Instrs)-1]
+		if ifi, ok := last.(*ssa.If); ok {
+			switch x.eval(ifi.Cond, asg, env) {
+			case triTrue:
+				work = append(work, item{it.b.Succs[0], it.b, env})
+			case triFalse:
+				work = append(work, item{it.b.Succs[1], it.b, env})
+			default:
+				work = append(work, item{it.b.Succs[0], it.b, env}, item{it.b.Succs[1], it.b, env})
+			}
+			continue
+		}
+		for _, s := range it.b.Succs {
+			work = append(work, item{s, it.b, env})
+		}
+	}
+	return false
+}
+
 // impliedAt: is `formula` (a predicate over assignments) true for every
 // assignment under which block is reachable?  Returns a counterexample
 // assignment otherwise.
